@@ -496,6 +496,7 @@ def check_member_parser(fx, rep, rule):
     # wiring of captures into the record (C05.4) per sequence
     wiring_ok = True
     wdesc = []
+    presence_seen = [0]
     for events, (capi, flags) in ref.items():
         for rec, idx_of, st in have.get(events, []):
             w = record_wiring(rec, idx_of)
@@ -534,6 +535,20 @@ def check_member_parser(fx, rep, rule):
                             "startline": C_("s"), "endline": C_("e"),
                             "original_startline": some(C_("os")) if flags["has_os"] else NONE,
                             "original_endline": some(C_("oe")) if flags["has_oe"] else NONE})
+                        # presence rule (C01.P1 / C05.4): Some iff both obfuscated line numbers are > 0, decided on this path's own conditions
+                        conds_w = tuple((record_wiring(a_, idx_of), p_) for a_, p_ in st.conds)
+                        asg = fc.assignment(conds_w)
+                        gs = asg.get(fc.canon_atom(("lt", lit_int(0), C_("s")))[0])
+                        ge = asg.get(fc.canon_atom(("lt", lit_int(0), C_("e")))[0])
+                        pol_s = fc.canon_atom(("lt", lit_int(0), C_("s")))[1]
+                        pol_e = fc.canon_atom(("lt", lit_int(0), C_("e")))[1]
+                        gs = None if gs is None else (gs == pol_s)
+                        ge = None if ge is None else (ge == pol_e)
+                        if lm == NONE:
+                            ok_lm = ok_lm and (gs is False or ge is False)
+                        else:
+                            ok_lm = ok_lm and gs is True and ge is True
+                        presence_seen[0] += 1
                     else:
                         ok_lm = lm == NONE
                     good = good and ok_lm
